@@ -258,7 +258,15 @@ def _d3(chk, fb):
             # a hand-written ordering pass cannot be judged by this rule: neither pass nor violation
             chk.fail_broken("anchor vanished: %s no longer orders ranges_ through std::sort; the canonical-order clause (D3) must be re-examined" % clean.key)
         cfg = clean.cfg
-        erases = [n for n in clean.calls() if n["callee"]["name"] == "erase" and render(clean.obj(n)) == "ranges_"]
+        erases = [n for n in clean.calls() if n["callee"]["name"] == "erase" and "obj" in n and render(clean.obj(n)) == "ranges_"]
+        # a helper member that erases the position it is given from ranges_ erases at its call site
+        for n in clean.calls():
+            if n["callee"]["name"] != "erase" and ("obj" not in n or strip(clean.obj(n))["k"] == "CXXThisExpr") and clean.args(n):
+                for t in fb.targets(n, static_type_only=True):
+                    if t.key != clean.key and t.body is not None and t.cls == cls and any(
+                            x["callee"]["name"] == "erase" and "obj" in x and render(t.obj(x)) == "ranges_" and t.args(x) and render(t.args(x)[0]) in {p_["name"] for p_ in t.params}
+                            for x in t.calls()):
+                        erases.append(n)
         if not erases:
             chk.refuted("D3", clean.key, "removes-empties", clean.loc(), "clean_() no longer removes empty ranges")
         for e in erases:
